@@ -13,7 +13,7 @@ on all assignments."""
 import importlib
 import itertools
 
-from lib import import_impl, outcome, is_error, cnf_sat, pb_sat, assignments
+from lib import import_impl, outcome, is_error, cnf_sat, pb_sat, assignments, family_replies
 
 META = dict(
     technique='Coq theorem cnf_opb_same_models over the IR of builder calls (+ per-family irs_ok lemmas) + differential build of every family under both formula classes and both command line tools against to_cnf/to_opb of the extracted model',
@@ -61,8 +61,8 @@ def run(ctx):
             ps = ps[:cap // 2] + ctx.rng.sample(ps[cap // 2:], cap // 2)
         for p in ps:
             jobs.append((fam, p))
-    replies = ctx.model.batch([fam.get('request_spec', fam['request'])(p) for fam, p in jobs]) if jobs else []
-    for (fam, p), rep in zip(jobs, replies):
+    replies = family_replies(ctx.model, jobs)
+    for (fam, p), reps in zip(jobs, replies):
         name = fam['name']
         a = outcome(fam['build'], p, CNF)
         b = outcome(fam['build'], p, OPB)
@@ -88,14 +88,20 @@ def run(ctx):
             ctx.violation('counterexample', '%s: %s' % (name, bad), dict(input=dict(family=name, params=p)), True, site='class-shape', cls=name)
             continue
         n = F.number_of_variables()
-        if is_error(rep) or not isinstance(rep, list) or len(rep) != 3:
-            ctx.violation('correspondence', 'family model %s gives no formula where the implementation does' % name, dict(input=dict(family=name, params=p), model=str(rep)[:200]),
+        good = [r for r in reps if not is_error(r) and isinstance(r, list) and len(r) == 3]
+        if not good:
+            ctx.violation('correspondence', 'family model %s gives no formula where the implementation does' % name, dict(input=dict(family=name, params=p), model=str(reps)[:200]),
                           False, site='model-accept', cls=name)
             continue
-        mnum, mcnf, mopb = rep
-        mopb_py = [[tuple(t) for t in c[0]] + [c[1], c[2]] for c in mopb]
         canon = lambda x: sorted(set(tuple(sorted(c)) for c in x))
-        agree = (mnum == n and canon(mcnf) == canon(cl) and mopb_py == [[tuple(t) if isinstance(t, (list, tuple)) else t for t in c] for c in cons])
+        cons_py = [[tuple(t) if isinstance(t, (list, tuple)) else t for t in c] for c in cons]
+        agree = False
+        for mnum, mcnf, mopb in good:
+            mopb_py = [[tuple(t) for t in c[0]] + [c[1], c[2]] for c in mopb]
+            if mnum == n and canon(mcnf) == canon(cl) and mopb_py == cons_py:
+                agree = True
+                break
+        mnum = good[0][0]
         if agree:
             continue
         ctx.disagreements_checked += 1
